@@ -4,8 +4,8 @@ import vlib
 from props import uni
 
 ENVS = [None, "rel/out", "$ROOT/abs/out", "./bindings/./"]
-ROOTS = [0, 1, 2, 3, 4, 5, 6, 7, 8, 9, 10, 11, 12, 13, 14, 17, 18, 19, 20, 21, 22, 23, 24, 31, 34]
-PAIRS = [(10, 11), (11, 10), (21, 22), (22, 21), (2, 7), (4, 23), (23, 4), (17, 10), (10, 17), (34, 31), (7, 6)]
+ROOTS = [0, 1, 2, 3, 4, 5, 6, 7, 8, 9, 10, 11, 12, 13, 14, 17, 18, 19, 20, 21, 22, 23, 24, 31, 34, 44, 49, 52]
+PAIRS = [(10, 11), (11, 10), (21, 22), (22, 21), (2, 7), (4, 23), (23, 4), (17, 10), (10, 17), (34, 31), (7, 6), (46, 47), (47, 46), (50, 51), (51, 50)]
 
 
 def base_of(dod, root):
@@ -71,7 +71,8 @@ def run(ctx):
             reach_t = uni.reach(types, t)
             for victim in reach_t[1:4]:
                 vloc = posixpath.normpath(posixpath.join(base, types[victim]["output_path"]))
-                h = {"op": "uhist", "root": root, "steps": unrelated + [{"k": "mkdir", "p": "$ROOT/" + vloc}, {"k": "snap"}, {"k": "export_all", "t": t}, {"k": "snap"}]}
+                h = {"op": "uhist", "root": root, "steps": unrelated + [{"k": "mkdir", "p": "$ROOT/" + vloc}, {"k": "snap"}, {"k": "export_all", "t": t}, {"k": "snap"},
+                                                                      {"k": "rm", "p": "$ROOT/" + vloc}, {"k": "export_all", "t": t}, {"k": "snap"}]}
                 if env is not None:
                     h["env"] = env
                 hists.append(h)
@@ -95,8 +96,14 @@ def run(ctx):
             case = {"env": env, "type": types[t]["name"], "entry": form, "steps": h["steps"]}
             problems = []
             if form.startswith("blocked:"):
+                # after the obstacle is removed and the export repeated: Ok only with every file there
+                final = {p: n for p, n in r["snaps"][2]}
+                missing2 = sorted(l for l in locs if "file" not in final.get(l, {}))
+                if r["steps"][-2] == "ok" and missing2:
+                    ctx.violation("export_all (repeated after a failed attempt) returned Ok although files of reachable types were not written: " + ", ".join(missing2[:4]),
+                                  dict(case, blocked=types[int(form.split(":")[1])]["name"]), {"reach": [types[x]["name"] for x in targets], "step_results": r["steps"]})
                 missing = sorted(l for l in locs if "file" not in after.get(l, {}))
-                if r["steps"][-2] == "ok" and missing:
+                if r["steps"][-5] == "ok" and missing:
                     ctx.violation("export_all returned Ok although files of reachable types were not written: " + ", ".join(missing[:4]),
                                   dict(case, blocked=types[int(form.split(":")[1])]["name"]), {"reach": [types[x]["name"] for x in targets]})
                 continue
